@@ -186,13 +186,24 @@ func c18GenCase(r *vc.Rand, idx int, prefix string, onlyCare bool) *atCase {
 			args = append(args, tvOf(nv))
 		}
 		args = append(args, wargs...)
-		st = atStmt{Kind: "update", Table: t.Name, SQL: fmt.Sprintf("update %s set %s = %s where %s", t.Name, first.Name, setv, w), Args: args,
-			Feat: map[string]string{"stmt": "update-pk", "where": "cmp+and"}}
+		colName := first.Name
+		spelling := "exact"
+		switch r.Intn(3) {
+		case 1:
+			colName, spelling = strings.ToUpper(colName), "upper"
+		case 2:
+			colName, spelling = "`"+colName+"`", "quoted"
+		}
+		st = atStmt{Kind: "update", Table: t.Name, SQL: fmt.Sprintf("update %s set %s = %s where %s", t.Name, colName, setv, w), Args: args,
+			Feat: map[string]string{"stmt": "update-pk", "where": "cmp+and", "pk_spelling": spelling}}
 	}
 	c.Groups = []atGroup{{Explicit: r.Intn(4) == 0, Stmts: []atStmt{st}}}
 	c.Feat["stmt"] = st.Feat["stmt"]
 	c.Feat["where"] = st.Feat["where"]
 	c.Feat["limit"] = st.Feat["limit"]
+	if v := st.Feat["pk_spelling"]; v != "" {
+		c.Feat["pk_spelling"] = v
+	}
 	c.Feat["params"] = fmt.Sprint(params)
 	c.Feat["str_cols_in_where"] = fmt.Sprint(strCols)
 	c.Feat["depth"] = fmt.Sprint(depth)
